@@ -46,6 +46,29 @@ func runC13(c *Ctx) {
 			return cfg
 		}
 	}
+	// a tenth of the free worlds: the fingerprint is imported in the tlsfingerprint.io format
+	// (ClientHelloSpec.ImportTLSClientHello) into a spec whose version bounds the caller set
+	// beforehand - the documented order; the imported supported_versions must then be what counts
+	if stratum < 0 && golang == "" && ch.Bool(10, "imported") {
+		src := []IDInfo{{"Chrome_100", tls.HelloChrome_100}, {"Chrome_120", tls.HelloChrome_120}, {"Chrome_102", tls.HelloChrome_102}, {"Chrome_106_Shuffle", tls.HelloChrome_106_Shuffle}, {"Safari_16_0", tls.HelloSafari_16_0}, {"Chrome_83", tls.HelloChrome_83}}[ch.Pick(6, "import-src")] // (the format has no field for Firefox' delegated_credentials list)
+		bounds := [][2]uint16{{0, 0}, {tls.VersionTLS10, tls.VersionTLS13}, {tls.VersionTLS10, tls.VersionTLS12}, {tls.VersionTLS12, tls.VersionTLS13}, {tls.VersionTLS11, tls.VersionTLS12}}[ch.Pick(5, "import-bounds")]
+		if h0, err := DryHello(negCfg(), src.ID, nil); err == nil {
+			data := importData(h0)
+			mk := func() *tls.ClientHelloSpec {
+				sp := &tls.ClientHelloSpec{TLSVersMin: bounds[0], TLSVersMax: bounds[1]}
+				if err := sp.ImportTLSClientHello(data); err != nil {
+					return nil
+				}
+				return sp
+			}
+			if mk() != nil {
+				f = &Fingerprint{Kind: "imported", IDI: IDInfo{"Custom", tls.HelloCustom}, NewSpec: mk, Desc: fmt.Sprintf("%s bounds=%x-%x", src.Name, bounds[0], bounds[1])}
+				c.Probe("imported-fingerprint")
+			} else {
+				c.Probe("import-refused")
+			}
+		}
+	}
 	var dry *wire.ClientHello
 	if golang == "" {
 		var err error
@@ -154,4 +177,55 @@ func runC13(c *Ctx) {
 		c.R.Sample = map[string]any{"fingerprint": f.IDI.Name, "kind": kind, "version": ver, "offered": of.Versions, "completed": o.CDone, "client_error": fmt.Sprint(o.CErr)}
 	}
 	_ = refsrv.VersionTLS12
+}
+
+// importData renders a parsed ClientHello in the map format of ClientHelloSpec.ImportTLSClientHello
+// (client.tlsfingerprint.io): lists of code points plus the bodies of the extensions that carry
+// parameters, with the length prefixes that format keeps or drops.
+func importData(h *wire.ClientHello) map[string][]byte {
+	be := func(xs []uint16) []byte {
+		var b []byte
+		for _, x := range xs {
+			b = append(b, byte(x>>8), byte(x))
+		}
+		return b
+	}
+	d := map[string][]byte{"cipher_suites": be(h.CipherSuites), "compression_methods": append([]byte(nil), h.Compression...)}
+	var types []uint16
+	for _, e := range h.Extensions {
+		types = append(types, e.Type)
+		body := append([]byte(nil), e.Data...)
+		switch e.Type {
+		case 11:
+			d["pt_fmts"] = body
+		case 13:
+			d["sig_algs"] = body
+		case 43:
+			if len(body) > 0 {
+				d["supported_versions"] = body[1:]
+			}
+		case 10:
+			d["curves"] = body
+		case 16:
+			d["alpn"] = body
+		case 51:
+			var ks []byte
+			for _, k := range h.KeyShares {
+				ks = append(ks, byte(k.Group>>8), byte(k.Group), byte(len(k.Data)>>8), byte(len(k.Data)))
+			}
+			d["key_share"] = ks
+		case 45:
+			if len(body) > 0 {
+				d["psk_key_exchange_modes"] = body[1:]
+			}
+		case 27:
+			if len(body) > 0 {
+				d["cert_compression_algs"] = body[1:]
+			}
+		case 28:
+			d["record_size_limit"] = body
+		}
+	}
+	d["extensions"] = be(types)
+	return d
 }
